@@ -227,8 +227,8 @@ PROPS["C14"] = {
         _p("c14::c14_string_rt_c0", Q, "StringCodec round trip, empty string"),
         _p("c14::c14_string_enc_b2", Q, "StringCodec::encode of every string of 2 UTF-8 bytes is exactly those bytes"),
         _p("c14::c14_string_enc_b4", Q, "StringCodec::encode of every string of 4 UTF-8 bytes is exactly those bytes"),
-        _p("c14::c14_string_any_b1", Q, "StringCodec::decode on every 1-byte input", timeout=1800, mem_gb=20),
-        _p("c14::c14_string_any_b2", Q, "StringCodec::decode on every 2-byte input", timeout=1800, mem_gb=20),
+        _p("c14::c14_string_any_b1", Q, "StringCodec::decode on every 1-byte input", timeout=1800),
+        _p("c14::c14_string_any_b2", Q, "StringCodec::decode on every 2-byte input", timeout=1800),
         _p("c14::c14_string_any_b3", T, "StringCodec::decode on every 3-byte input", timeout=1800),
         _p("c14::c14_string_any_b4", T, "StringCodec::decode on every 4-byte input", timeout=3000, mem_gb=14),
         _p("c14::c14_string_invalid_trunc2", Q, "StringCodec::decode on a concrete invalid UTF-8 input: truncated 2-byte sequence"),
